@@ -114,14 +114,15 @@ func (s *Store) persist(higher Snapshot, persistOptions StorePersistOptions) (
 	}
 
 	// If higher segment has no data, we're still clean, so just snapshot,
-	// unless a persisted child collection is no longer part of the higher
-	// snapshot, which means that its deletion still has to be persisted.
+	// unless the higher snapshot does not have the same child collections
+	// as the store: then the deletion of a child collection (or the
+	// creation of a still empty one) has yet to be persisted.
 	if ss.isEmpty() {
 		s.m.Lock()
-		childDeleted := s.footer.hasChildNotIn(ss)
+		childrenDiffer := s.footer.childrenDifferFrom(ss)
 		s.m.Unlock()
 
-		if !childDeleted {
+		if !childrenDiffer {
 			return s.Snapshot()
 		}
 	}
@@ -225,19 +226,23 @@ func (s *Store) buildNewFooter(storeFooter *Footer, ss *segmentStack) *Footer {
 	return footer
 }
 
-// hasChildNotIn returns true when this footer, or one of its child
-// footers, has a child collection that does not exist (in the same
-// incarnation) in the given segmentStack.
-func (f *Footer) hasChildNotIn(ss *segmentStack) bool {
+// childrenDifferFrom returns true when the child collections of this
+// footer (recursively) are not the same, by name and incarnation, as
+// the child collections of the given segmentStack.
+func (f *Footer) childrenDifferFrom(ss *segmentStack) bool {
 	if f == nil {
-		return false
+		return len(ss.childSegStacks) > 0
+	}
+
+	if len(f.ChildFooters) != len(ss.childSegStacks) {
+		return true
 	}
 
 	for cName, childFooter := range f.ChildFooters {
 		childStack, exists := ss.childSegStacks[cName]
 		if !exists ||
 			childFooter.incarNum != childStack.incarNum ||
-			childFooter.hasChildNotIn(childStack) {
+			childFooter.childrenDifferFrom(childStack) {
 			return true
 		}
 	}
